@@ -20,12 +20,16 @@ var c09RenameExempt = map[string]string{
 func c09(p *core.Program, r *core.Report) {
 	r.Rule("R1", "durable before acknowledged: every storage mutation is either a logging mutator (appends to the op log) applied while OpWriter is attached, or every path from it to a normal return of a fragment entry point passes the snapshot rename, or a queued snapshot followed by the wait on snapshotCond")
 	r.Rule("R2", "a file renamed over a persistent file starts empty: in package pilosa the source of every os.Rename is a temporary file created in the same function (or in the in-package function that returned its path) by os.Create, ioutil.WriteFile, or OpenFile with constant flags containing O_TRUNC or O_EXCL; a leftover from an interrupted earlier attempt is therefore never partly overwritten and then moved into place (its tail would be read as op-log records at the next start)")
+	r.Rule("R3", "the op log stays attached: a fragment function that sets <fragment>.storage.OpWriter to nil has it attached again on every path on which it returns; writes acknowledged while it is nil are not in the log")
+	opWriterReattached(p, r, "R3")
 	r.NotDecided = "file-system behaviour under power loss (no fsync before the snapshot rename); torn appends to the op log (the reader's handling of a short last record is C05/C06)"
 	b, err := newFxBase(p)
 	if err != nil {
 		r.Undecide("R1", "fragment effects", "", err.Error())
 		return
 	}
+	r.Rule("R4", "depth before bits: in every Field method that assigns the bit depth (FieldOptions.BitDepth / bsiGroup.BitDepth), no call that may write fragment storage (a fragment or view method reaching a storage mutation) happens between the assignment and Field.saveMeta")
+	c09DepthBeforeBits(p, r, b)
 	n := b.report(r, "R1", fxDurable, nil)
 	r.Floor("C09/R1 storage-mutating functions (origins)", n, 8)
 
